@@ -1,4 +1,4 @@
-import MahfModel.Model.PsoLoop
+import MahfModel.Model.PsoNest
 open MahfModel MahfModel.Pso
 
 namespace C18Drv
@@ -404,7 +404,7 @@ def progAgrees (obs : Sexp) (m : Option Float) : Bool :=
 /-- K for the loop: the condition model, fed with the counters observed at each pass boundary, must
 answer `true` before every pass and `false` at the exit, passes must be numbered 0, 1, 2, …, and the
 two `Progress` states must hold what the model's evaluation leaves behind. -/
-def loopAgrees (c : Cond) (steps : List Sexp) : Bool :=
+def loopAgrees (c : Cond) (steps : List Sexp) (foreignProgress : Bool := false) : Bool :=
   let lv0 : LoopVars Float := condInit 0.0 c ⟨0, 0, none, none⟩
   let obs := steps.filterMap fun s => match s with
     | .list [.atom "passx", it, ev, pi, pe] => some (true, it, ev, pi, pe)
@@ -417,55 +417,157 @@ def loopAgrees (c : Cond) (steps : List Sexp) : Bool :=
       | some it, some ev =>
         let r := evalCond Float.ofNat c { lv0 with iters := it, evals := ev }
         -- what the `Progress` states hold after the loop has ended is not C18's business
-        it == k && r.1 == want && (!want || (progAgrees pi r.2.progIter && progAgrees pe r.2.progEval)) && go (k + 1) rest
+        -- (with unscoped conditions in the loop body a `Progress` the loop's own condition knows nothing of may exist)
+        it == k && r.1 == want && (!want || (progAgrees pi r.2.progIter &&
+          (progAgrees pe r.2.progEval || (foreignProgress && r.2.progEval.isNone)))) && go (k + 1) rest
       | _, _ => false
   go 0 obs
+
+/-- Verdict on one PSO loop's worth of observed steps (a whole `runx` run, or one segment of a `runn` run):
+`(holds, class, agree, passes)`. -/
+def segVerdict (start stop : Float) (inertia : Bool) (c : Cond) (status : String) (needExit : Bool) (useWAt : Bool)
+    (steps : List Sexp) : Bool × String × Bool × Nat :=
+  let P : Params Float := { c1 := 0.0, c2 := 0.0, vmax := 0.0, start, stop, inertia }
+  let n := (c.lastIterBound).getD 0
+  let isX := fun (s : Sexp) => match s with
+    | .list (.atom h :: _) => h == "passx" || h == "exitx" || h == "wuse" || h == "ipass"
+    | _ => false
+  -- O, step by step: the clauses of the property on the implementation's states
+  let bad := ((steps.filter (fun s => !isX s)).map (stepOk start stop)).filter (fun r => !r.1)
+  -- … and "it is that stored weight which scales the old velocity in the next update": every velocity
+  -- update read exactly the weight the latest inertia-weight update stored (the initial one before the
+  -- first), wherever in the loop body that update stands
+  let chain := steps.foldl (fun (acc : Float × List String) s => match s with
+    | .list [.atom "inertia", _, _, _, w] => match w.float? with
+      | some w => (w, acc.2)
+      | none => (acc.1, "bad-step" :: acc.2)
+    | .list [.atom "wuse", _, w] => match w.float? with
+      | some w => if w == acc.1 then acc else (acc.1, "weight-chain" :: acc.2)
+      | none => (acc.1, "bad-step" :: acc.2)
+    | _ => acc) (start, [])
+  let badW := chain.2.reverse
+  -- K: the schedule the loop model predicts (`wAt`)
+  let schedule := !useWAt || steps.all fun s => match s with
+    | .list [.atom "wuse", it, w] => match it.nat?, w.float? with
+      | some it, some w => close 1e-12 w (wAt Float.ofNat P n start it) (start.abs + stop.abs)
+      | _, _ => false
+    | _ => true
+  let cnt := fun (t : String) => (steps.filter (fun s => match s with | .list (.atom h :: _) => h == t | _ => false)).length
+  let passes := cnt "passx"
+  let complete := status != "ok" ||
+    ((cnt "exitx" == 1 || !needExit) && cnt "inv" == 2 * passes && cnt "pb" == passes && cnt "wuse" == passes &&
+      cnt "inertia" == (if inertia then passes else 0))
+  -- a run that ends in `Err` / panic disagrees with the model (K); O judges the states it went through
+  let holds := bad.isEmpty && badW.isEmpty && complete
+  let cls := match bad, badW with
+    | (_, c) :: _, _ => c
+    | [], c :: _ => c
+    | [], [] => if holds then "-" else "no-steps"
+  let agree := status == "ok" && loopAgrees c steps (!useWAt) && schedule
+  (holds, cls, agree, passes)
 
 def runxCase (args : List Sexp) (implOut : Sexp) : Option Verdict := do
   let start ← float1 "start" args
   let stop ← float1 "end" args
   let inertia ← nat1 "inertia" args
   let c ← condOf 64 (← (← field "cond" args).head?)
-  let P : Params Float := { c1 := 0.0, c2 := 0.0, vmax := 0.0, start, stop, inertia := inertia == 1 }
-  let n := (c.lastIterBound).getD 0
   match implOut with
   | .list [.atom status, stepsS] =>
     let steps ← Sexp.tagged? "steps" stepsS
-    let isX := fun (s : Sexp) => match s with
-      | .list (.atom h :: _) => h == "passx" || h == "exitx" || h == "wuse"
-      | _ => false
-    -- O, step by step: the clauses of the property on the implementation's states
-    let bad := ((steps.filter (fun s => !isX s)).map (stepOk start stop)).filter (fun r => !r.1)
-    -- … and "it is that stored weight which scales the old velocity in the next update": every velocity
-    -- update read exactly the weight the latest inertia-weight update stored (the initial one before the
-    -- first), wherever in the loop body that update stands
-    let chain := steps.foldl (fun (acc : Float × List String) s => match s with
-      | .list [.atom "inertia", _, _, _, w] => match w.float? with
-        | some w => (w, acc.2)
-        | none => (acc.1, "bad-step" :: acc.2)
-      | .list [.atom "wuse", _, w] => match w.float? with
-        | some w => if w == acc.1 then acc else (acc.1, "weight-chain" :: acc.2)
-        | none => (acc.1, "bad-step" :: acc.2)
-      | _ => acc) (start, [])
-    let badW := chain.2.reverse
-    -- K: the schedule the loop model predicts (`wAt`)
-    let schedule := steps.all fun s => match s with
-      | .list [.atom "wuse", it, w] => match it.nat?, w.float? with
-        | some it, some w => close 1e-12 w (wAt Float.ofNat P n start it) (start.abs + stop.abs)
-        | _, _ => false
-      | _ => true
-    let cnt := fun (t : String) => (steps.filter (fun s => match s with | .list (.atom h :: _) => h == t | _ => false)).length
-    let passes := cnt "passx"
-    let complete := status != "ok" ||
-      (cnt "exitx" == 1 && cnt "inv" == 2 * passes && cnt "pb" == passes && cnt "wuse" == passes &&
-        cnt "inertia" == (if inertia == 1 then passes else 0))
-    -- a run that ends in `Err` / panic disagrees with the model (K); O judges the states it went through
-    let holds := bad.isEmpty && badW.isEmpty && complete
-    let cls := match bad, badW with
-      | (_, c) :: _, _ => c
-      | [], c :: _ => c
-      | [], [] => if holds then "-" else "no-steps"
-    let agree := status == "ok" && loopAgrees c steps && schedule
+    let (holds, cls, agree, passes) := segVerdict start stop (inertia == 1) c status true true steps
+    pure { agree, holds, cls, model := .list [.atom "steps", Sexp.ofNat steps.length, .atom "passes", Sexp.ofNat passes] }
+  | _ => none
+
+/-! ### `runn`: PSO loops with further (scoped) loops / conditions in the body, PSO loops inside an enclosing loop -/
+
+mutual
+/-- `(sat) | (nop) | (eval) | (scope K*) | (loop C K*) | (if C K*)` -/
+def compOf : Nat → Sexp → Option Comp
+  | 0, _ => none
+  | _ + 1, .list [.atom "sat"] => some .nop
+  | _ + 1, .list [.atom "nop"] => some .nop
+  | _ + 1, .list [.atom "eval"] => some .evals
+  | fuel + 1, .list (.atom "scope" :: ks) => (compsOf fuel ks).map Comp.scope
+  | fuel + 1, .list (.atom "loop" :: c :: ks) => do pure (Comp.loop (← condOf 64 c) (← compsOf fuel ks))
+  | fuel + 1, .list (.atom "if" :: c :: ks) => do pure (Comp.branch (← condOf 64 c) (← compsOf fuel ks))
+  | _, _ => none
+def compsOf : Nat → List Sexp → Option Comps
+  | 0, _ => none
+  | _ + 1, [] => some .nil
+  | fuel + 1, k :: ks => do pure (Comps.cons (← compOf fuel k) (← compsOf fuel ks))
+end
+
+/-- Every component of the block is a `Scope` (or has no bookkeeping at all) — `Comps.allScoped` of the proofs. -/
+def Comps.allScopedB : Comps → Bool
+  | .nil => true
+  | .cons (.scope _) cs => Comps.allScopedB cs
+  | .cons .nop cs => Comps.allScopedB cs
+  | .cons _ _ => false
+
+/-- Split the steps of a run at the `(seg)` markers (one segment per PSO executed). -/
+def segments (steps : List Sexp) : List (List Sexp) :=
+  let r := steps.foldl (fun (acc : List (List Sexp) × List Sexp) s => match s with
+    | .list [.atom "seg"] => (acc.2.reverse :: acc.1, [])
+    | s => (acc.1, s :: acc.2)) ([], [])
+  (r.2.reverse :: r.1).reverse
+
+/-- K for the refinements: the model's execution of the four slots (on the counters observed at the pass
+boundary) goes through exactly as many passes of nested loops as the implementation did between two pass
+boundaries of the PSO loop, and the `Progress<Iterations>` it leaves in the PSO loop's registry in front of the
+inertia-weight update gives the weight the implementation stored in that pass. -/
+def innerAgrees (start stop : Float) (inertia : Bool) (c : Cond) (np : Nat) (sl : Slots) (steps : List Sexp) : Bool :=
+  let lv0 : LoopVars Float := condInit 0.0 c ⟨0, 0, none, none⟩
+  -- observed: per pass (iterations, evaluations, number of `ipass`, weight stored)
+  let obs := steps.foldl (fun (acc : List (Nat × Nat × Nat × Option Float)) s => match s with
+    | .list [.atom "passx", it, ev, _, _] => ((it.nat?.getD 0), (ev.nat?.getD 0), 0, none) :: acc
+    | .list (.atom "ipass" :: _) => match acc with
+      | (it, ev, k, w) :: rest => (it, ev, k + 1, w) :: rest
+      | [] => [(0, 0, 1, none)]
+    | .list [.atom "inertia", _, _, _, w] => match acc with
+      | (it, ev, k, _) :: rest => (it, ev, k, w.float?) :: rest
+      | [] => []
+    | _ => acc) []
+  obs.all fun (it, ev, k, w) =>
+    let lv := (evalCond Float.ofNat c { lv0 with iters := it, evals := ev }).2
+    let run := fun (cs : Comps) (ch : Chain Float) => cexecs Float.ofNat 0.0 np 100000 cs ch
+    let r1 := run sl.pre [frameOf lv]
+    let r2 := run sl.con r1.chain
+    -- the PSO loop's own evaluation
+    let ch3 := setFirst (fun fr => fr.evals.isSome) (fun fr => { fr with evals := fr.evals.map (· + np) }) r2.chain
+    let r3 := run sl.ine ch3
+    let r4 := run sl.upd r3.chain
+    let wOk := match w, getFirst (fun fr => fr.progIter) r3.chain with
+      | some w, some p => inertia && close 1e-12 w (linear start stop p) (start.abs + stop.abs)
+      | none, _ => true     -- no inertia-weight update observed in this pass (none configured, or the run ended)
+      | some _, none => false
+    r1.status == .ok && r2.status == .ok && r3.status == .ok && r4.status == .ok &&
+      k == r1.passes + r2.passes + r3.passes + r4.passes && wOk
+
+def runnCase (args : List Sexp) (implOut : Sexp) : Option Verdict := do
+  let start ← float1 "start" args
+  let stop ← float1 "end" args
+  let inertia ← nat1 "inertia" args
+  let wrap ← nat1 "wrap" args
+  let np ← nat1 "np" args
+  let c ← condOf 64 (← (← field "cond" args).head?)
+  let sl : Slots := { pre := ← compsOf 64 (← field "pre" args), con := ← compsOf 64 (← field "con" args),
+                      ine := ← compsOf 64 (← field "ine" args), upd := ← compsOf 64 (← field "upd" args) }
+  match implOut with
+  | .list [.atom status, stepsS] =>
+    let steps ← Sexp.tagged? "steps" stepsS
+    let segs := if wrap == 0 then [steps] else (segments steps).drop 1
+    let vs := segs.map fun seg =>
+      -- the schedule `wAt` is what the theorem promises for scoped refinements; in general the weight comes from
+      -- the model's execution of the slots
+      let isScoped := Comps.allScopedB sl.pre && Comps.allScopedB sl.con && Comps.allScopedB sl.ine && Comps.allScopedB sl.upd
+      let (holds, cls, agree, passes) := segVerdict start stop (inertia == 1) c status (wrap == 0) isScoped seg
+      (holds, cls, agree && innerAgrees start stop (inertia == 1) c np sl seg, passes)
+    let holds := vs.all (·.1) && (status != "ok" || segs.length == (if wrap == 0 then 1 else wrap))
+    let cls := match vs.find? (fun v => !v.1) with
+      | some v => v.2.1
+      | none => if holds then "-" else "no-steps"
+    let agree := vs.all (·.2.2.1)
+    let passes := (vs.map (·.2.2.2)).foldl (· + ·) 0
     pure { agree, holds, cls, model := .list [.atom "steps", Sexp.ofNat steps.length, .atom "passes", Sexp.ofNat passes] }
   | _ => none
 
@@ -481,6 +583,7 @@ def handle (input implOut : Sexp) : Option Verdict := do
     else if kind == "linear" then linearCase args implOut
     else if kind == "run" || kind == "runc" then runCase args implOut
     else if kind == "runx" then runxCase args implOut
+    else if kind == "runn" then runnCase args implOut
     else none
   | _ => none
 
